@@ -244,8 +244,11 @@ def run(ctx: Ctx) -> None:
     ctx.cov["traces_validated_against_impl"] -= 1
 
     # ---- all schedules of multi-run plans with edits: Scheduler.tla + contract (determ) ---------------
-    schedlab.suite(ctx, ["determ"], n_random_progs=ctx.pick(3, 24), n_sim=ctx.pick(40, 800),
-                   n_random_hist=ctx.pick(15, 400), tag="c02", n_reuse=ctx.pick(40, 600))
+    # curated + random programs, plus the shallow family (run, run again unchanged, edit beneath a shallow task, run:
+    # every run registers the tasks again, as a re-imported module does)
+    progs = schedlab.make_programs(ctx, ctx.pick(3, 24), "c02") + schedlab.shallow_programs(ctx, ctx.pick(2, 8), "c02s")
+    schedlab.suite(ctx, ["determ"], n_random_progs=0, n_sim=ctx.pick(40, 800),
+                   n_random_hist=ctx.pick(15, 400), tag="c02", n_reuse=ctx.pick(40, 600), progs=progs)
 
 
 def replay(ctx: Ctx, rec: dict) -> None:
